@@ -118,13 +118,13 @@ impl Property for C10 {
         "C10"
     }
     fn rule(&self) -> String {
-        "exhaustive: every string of length <=5 (thorough <=6) over {a, space, LF, CR, é, €, 😀, FF, U+2028}; for each: every char-boundary offset (to_proto::position vs reference, round trip through from_proto::position except strictly inside a CRLF pair, LineIndex::pos_to_line), every (line, column) with line < lines and column <= max width+1 (from_proto::position vs reference; columns inside a surrogate pair and lines past the end are unspecified and skipped), LineIndex::line_to_pos, one range. exhaustive family code-point-classes: the first and last code point of every UTF-8 and UTF-16 length class and one character per UTF-8 lead byte (C2..DF, E0..EF, F0..F4), alone, in pairs and around line breaks. random: mixed texts up to 4 KB with arbitrary scalar values, and vendored files (LF and CRLF). distinct = digest of text; non-trivial = the text contains a multi-byte char, CR, FF or U+2028".into()
+        "exhaustive: every string of length <=6 (thorough <=8) over {a, space, LF, CR, é, €, 😀, FF, U+2028}; for each: every char-boundary offset (to_proto::position vs reference, round trip through from_proto::position except strictly inside a CRLF pair, LineIndex::pos_to_line), every (line, column) with line < lines and column <= max width+1 (from_proto::position vs reference; columns inside a surrogate pair and lines past the end are unspecified and skipped), LineIndex::line_to_pos, one range. exhaustive family code-point-classes: the first and last code point of every UTF-8 and UTF-16 length class and one character per UTF-8 lead byte (C2..DF, E0..EF, F0..F4), alone, in pairs and around line breaks. random: mixed texts up to 4 KB with arbitrary scalar values, and vendored files (LF and CRLF). distinct = digest of text; non-trivial = the text contains a multi-byte char, CR, FF or U+2028".into()
     }
     fn assumptions(&self) -> Vec<String> {
         vec!["reference mapper RefPos written from the LSP specification (terminators LF, CRLF, CR; UTF-16 columns; clamping)".into()]
     }
     fn families(&self, ctx: &Ctx) -> Vec<Family> {
-        let maxlen = ctx.tier.pick(6usize, 7usize);
+        let maxlen = ctx.tier.pick(6usize, 8usize);
         let mut v = Vec::new();
         v.push(Family::new("empty", 1, |_c, _r, emit| {
             emit(json!({"kind": "pos", "text": ""}));
@@ -171,7 +171,7 @@ impl Property for C10 {
             })
             .exhaustive(),
         );
-        fams.push(Family::new("random-long", ctx.tier.pick(16, 128), |_c, rng, emit| {
+        fams.push(Family::new("random-long", ctx.tier.pick(16, 1024), |_c, rng, emit| {
             for _ in 0..40 {
                 let n = 1 + rng.below(1500);
                 let mut s = String::new();
